@@ -414,59 +414,43 @@ func (m *Memory) FindLatest(
 
 		machId := mach.Id()
 		mTimeIdxs := mach.Index(s.MTimeStates)
-		var older *amhist.MemoryRecord
-		r := &amhist.MemoryRecord{
-			Time: &amhist.TimeRecord{},
-		}
 		var ret []*amhist.MemoryRecord
+		// the record read as [older] by the previous pass
+		var next *amhist.MemoryRecord
 
+	records:
 		for id := m.nextId.Load() - 1; id > 0; id-- {
 			if ctx.Err() != nil || m.Ctx.Err() != nil {
 				return nil
 			}
 
-			v, err := getVal(txn, timeKey(machId, id))
-			if err != nil {
-				m.log("empty hit for %d", id)
-				break
-			}
-
 			// read TimeRecord
-			// 1st pass, move 1 more down
-			if older == nil {
-				id--
-				r.Time, err = DecTimeRecord(machId, id, v, cfg.EncJson)
-				v2, err2 := getVal(txn, timeKey(machId, id))
-				if err2 == nil {
-					older = &amhist.MemoryRecord{
-						Time: &amhist.TimeRecord{},
-					}
-					older.Time, err = DecTimeRecord(machId, id, v2, cfg.EncJson)
-					if err != nil {
-						m.onErr(err)
-						return nil
-					}
+			r := next
+			if r == nil {
+				v, err := getVal(txn, timeKey(machId, id))
+				if err != nil {
+					m.log("empty hit for %d", id)
+					break
 				}
-
-				// 2nd and later passes
-			} else if v != nil {
-				r = older
-				older = &amhist.MemoryRecord{
-					Time: &amhist.TimeRecord{},
+				t, err := DecTimeRecord(machId, id, v, cfg.EncJson)
+				if err != nil {
+					m.onErr(err)
+					return nil
 				}
-				older.Time, err = DecTimeRecord(machId, id, v, cfg.EncJson)
-				// TODO tx
+				r = &amhist.MemoryRecord{Time: t}
+			}
 
-				// last pass
-			} else {
-				r = older
-				older = nil
+			// read the one before (none for the oldest record)
+			var older *amhist.MemoryRecord
+			if v, err := getVal(txn, timeKey(machId, id-1)); err == nil {
+				t, err := DecTimeRecord(machId, id-1, v, cfg.EncJson)
+				if err != nil {
+					m.onErr(err)
+					return nil
+				}
+				older = &amhist.MemoryRecord{Time: t}
 			}
-			// err
-			if err != nil {
-				m.onErr(err)
-				return nil
-			}
+			next = older
 
 			// states conditions
 			t := r.Time
@@ -474,35 +458,35 @@ func (m *Memory) FindLatest(
 			// Active
 			for _, state := range query.Active {
 				if !am.IsActiveTick(t.MTimeTracked[m.Index1(state)]) {
-					continue
+					continue records
 				}
 			}
 			// Activated
 			for _, state := range query.Activated {
 				idx := m.Index1(state)
 				if !am.IsActiveTick(t.MTimeTracked[idx]) {
-					continue
+					continue records
 				}
 				// if has previously been active
 				if older != nil && am.IsActiveTick(older.Time.MTimeTracked[idx]) {
-					continue
+					continue records
 				}
 			}
 			// Inactive
 			for _, state := range query.Inactive {
-				if am.IsActiveTick(t.MTimeTracked[mach.Index1(state)]) {
-					continue
+				if am.IsActiveTick(t.MTimeTracked[m.Index1(state)]) {
+					continue records
 				}
 			}
 			// Deactivated
 			for _, state := range query.Deactivated {
 				idx := m.Index1(state)
 				if am.IsActiveTick(t.MTimeTracked[idx]) {
-					continue
+					continue records
 				}
 				// if has previously been inactive
 				if older != nil && !am.IsActiveTick(older.Time.MTimeTracked[idx]) {
-					continue
+					continue records
 				}
 			}
 			// MTimeStates
@@ -568,6 +552,7 @@ func (m *Memory) FindLatest(
 			if retTx && cfg.StoreTransitions {
 				txVal, _ := getVal(txn, txKey(machId, id))
 				if txVal != nil {
+					var err error
 					r.Transition, err = DecTransitionRecord(machId, id,
 						txVal, cfg.EncJson)
 					if err != nil {
